@@ -249,6 +249,7 @@ class C07(CheckBase):
         case = {'image': image, 'ops': ops, 'gz': gzmode, 'gz_ops': self.gen_ops(rng, 'gz', 2000)[:2] if gzmode == 'damaged' else [],
                 'cmd': self.gen_command(rng, image), 'globals': self.gen_globals(rng),
                 'second_image': rng.chance(0.08),
+                'stem': rng.choice(['img', 'img', 'img', 'disc.v2', 'a.b.c', 'my disc', '-dash', 'IMG.SSD']),
                 'build': rng.weighted([(5, 'asan'), (4, 'rel')] + ([(2, 'dbg'), (3, 'asan-dbg')] if tier == 'thorough' else [(1, 'asan-dbg')])),
                 'fault': rng.weighted([(12, None), (1, 'openfail'), (3, 'rfail'), (1, 'tmp_createfail'), (1, 'tmp_wfail'), (1, 'closefail')]),
                 'fpos': rng.below(1000), 'errno': rng.choice(['EIO', 'EACCES', 'EMFILE', 'ENOMEM', 'EISDIR', 'ENOSPC'])}
@@ -266,7 +267,7 @@ class C07(CheckBase):
         else:
             data = dfswork.render_image(image)
         data = apply_ops(data, image['ext'], case['ops'])
-        name = 'img.' + image['ext']
+        name = case.get('stem', 'img') + '.' + image['ext']
         if case['gz']:
             data = gz.compress(data, {'level': 6})
             if case['gz'] == 'damaged':
